@@ -63,7 +63,7 @@ def check(repo, tier):
         for d, rep, solver in itertools.product(orders, reps, ('solve', 'lu')):
             if which == 'mals' and d < 2:
                 continue
-            variants = [(1e-12, None)] if which == 'als' else ([(1e-12, None), (0, None), (1e-12, 'rho')] if (tier == 'thorough' or (d <= 3 and rep == 1)) else [(1e-12, None)])
+            variants = [(1e-12, None)] if which == 'als' else ([(1e-12, None), (0, None), (1e-12, 'rho'), (0, 'rho')] if (tier == 'thorough' or (d <= 3 and rep == 1)) else [(1e-12, None)])
             for thr, mr in variants:
                 scen = f'{which}(order={d}, repeats={rep}, solver={solver}' + (f', threshold={thr}, max_rank={"rho" if mr else "inf"}' if which == 'mals' else '') + ')'
                 for ch, sc, res, exc in run_solver(repo, which, d, solver, rep, thr, mr):
